@@ -189,9 +189,14 @@ def finish(prop, spec, results, bounded, tier, seed, t0, verbose=False, partial=
     exit_code = 0
     # replays for violations
     spec_replays = getattr(spec, 'REPLAYS', {})
+    units_by_name = {getattr(u, 'name', None): u for u in getattr(spec, 'UNITS', [])}
     for v in violations:
         rp = None
-        for key, fn in spec_replays.items():
+        # units whose parameters are scalars: the solver's counter-model is an input of the real function -> replay it natively
+        nat = getattr(units_by_name.get(v.get('unit')), 'native', None)
+        if nat and v.get('model') and not v.get('regressed'):
+            rp = {'script': 'bounded/native_replay.py', 'payload': {'oracle': nat[0], 'model': v['model'], 'extra': nat[1] if len(nat) > 1 else {}}}
+        for key, fn in (spec_replays.items() if rp is None else []):
             if v['name'].startswith(key) or key in v['name']:
                 try:
                     rp = fn(v)
